@@ -166,7 +166,7 @@ def run(chk):
         "enumerator/impl, empty struct, unknown bound type, duplicate CAN id, missing service, oversize; first/middle/last position) or none, "
         "or - with no fault in the tree - a rejecting check registered through fcp.verifier.register in a random category at a random position "
         "among passing ones, rejecting a random node; "
-        "GeneratorManager(make_general_verifier()).generate run for dbc, can_c, cpp, nop on a pre-populated output directory; result and the "
+        "GeneratorManager(make_general_verifier()).generate run for dbc, can_c, cpp, nop on a pre-populated output directory (user files, and stale files of up to 200 kB at the output paths); result and the "
         "directory before/after (names, contents, mtimes) observed; non-trivial = a fault was injected or files were written")
     cases, meta, fails = [], [], []
     ids = {}
@@ -196,6 +196,11 @@ def run(chk):
             out = os.path.join(work, f"o{k}")
             os.makedirs(out)
             pre = dict(PRE) if chk.rng.random() < 0.8 else {}
+            # what is there from an earlier generation may be longer than what is written now (a larger schema then): exactly the returned
+            # contents must remain, nothing of the old file
+            for fn in list(pre) + ["fcp_can.h", "can_static_schema.h", "fcp_default.h"]:
+                if pre and chk.rng.random() < 0.5:
+                    pre[fn] = pre.get(fn, "previous " + fn) + "\n" + "/* left over from a larger schema */\n" * chk.rng.choice([1, 400, 6000])
             for fn, c in pre.items():
                 with open(os.path.join(out, fn), "w") as f:
                     f.write(c)
